@@ -778,6 +778,16 @@ class SigmaRegularExpression(SigmaType):
         SigmaRegularExpressionFlag.DOTALL: "s",
     }
 
+    def __repr__(self) -> str:
+        # Same as the generated representation, but with the flag set in a defined order: it
+        # appears in error messages, which must not depend on the hash seed of the process.
+        flags = (
+            "{" + ", ".join(repr(f) for f in sorted(self.flags, key=lambda f: f.value)) + "}"
+            if self.flags
+            else "set()"
+        )
+        return f"{self.__class__.__name__}(regexp={self.regexp!r}, flags={flags})"
+
     def __post_init__(
         self,
         regexp_init: str | SigmaString,
